@@ -53,16 +53,23 @@ from harness import core
 GEN = ['CronCfg']
 
 MANIFEST = {
-    'level_text': 'Coq theorems over Model/Cron.v (step-granular model: Tick/Read/Adv/Start/Drop/Crash, any number of '
-                  'processors and triggers, arbitrary step lists, any nxt with t < nxt t): at most one start per '
-                  '(trigger, due time), every left occurrence is started / pending / lost to a crash, starts <= count '
-                  'and removal at 0, first-time-only fires once, next moves forward to nxt(max(now,next)), starts carry '
-                  'the trigger payload; model tied to periodic.py/triggers.py/db api by differential runs of the real '
-                  'process_cron_triggers_v2 in 1-3 greenlets suspended at every DB/RPC step.',
-    'level_note': 'Trusted: croniter (tabulated as nxt, only t < nxt t is assumed and checked per table), SQLAlchemy/sqlite '
-                  'conditional UPDATE atomicity (one DB step = one atomic model step), keystone (fake trust client), '
-                  'greenlet suspension points = the DB/RPC calls of process_cron_triggers_v2.',
-    'technique': 'Coq invariant proof over a step-granular protocol model; interleaving-driven differential correspondence',
+    'level_text': 'Coq theorems over Model/Cron.v (step-granular protocol model: Tick/Read/Adv/Start/Drop/Crash; any number of '
+                  'processors and triggers, arbitrary step lists = all interleavings of the database steps, any nxt with '
+                  't < nxt t): a 12-clause invariant proved by induction gives at most one start per (trigger, due time), '
+                  'every consumed occurrence started / pending / lost to a crash (exactly one without crash), starts <= count and '
+                  'removal exactly at 0, first-time-only fires once, next moves to nxt(max(now,next)) > next, starts carry the '
+                  "trigger's payload and project, nothing fires > 2 s early; under `lookup by name` they need unambiguous names "
+                  'and are REFUTED without (C17_*_refuted_ambiguous_names = a defect of the code). Model tied to periodic.py / '
+                  'triggers.py / db api by differential runs of the real process_cron_triggers_v2 in 1-3 greenlets suspended at '
+                  'every DB/RPC step, and of create_cron_trigger on an exhaustive decision table.',
+    'level_note': 'Trusted: croniter (tabulated per case as nxt; only t < nxt t is assumed, checked on every table), '
+                  'SQLAlchemy/sqlite atomicity of one statement (conditional UPDATE / DELETE = one model step), keystone (fake '
+                  'trust client), the suspension points (= the DB/RPC calls of process_cron_triggers_v2), translator '
+                  'tr_croncfg.py (lookup by name / id). Not modelled: a trigger whose NAME equals another trigger\'s id '
+                  '(get_cron_trigger matches id OR name); API delete/re-create of a trigger between read and advance; '
+                  'MySQL DATETIME truncation. Counts < 1 are outside the REST type (minimum=1, checked) and outside the count theorem.',
+    'technique': 'Coq invariant proof over a step-granular protocol model; interleaving-driven differential correspondence; '
+                 'source-extracted lookup mode',
     'design_ref': '6 C17',
 }
 
